@@ -26,10 +26,10 @@ var c02StmtCnt = map[c02Key]int64{}
 var c02BodyCnt = map[c02Key]int64{}
 
 const (
-	c02OneBodyIf  = 2 // 如果真 / 如果假
-	c02Loops      = 6 // 每当, 遍历 x5
-	c02TwoBodyIf  = 2
-	c02ThreeBody  = 4
+	c02OneBodyIf = 2 // 如果真 / 如果假
+	c02Loops     = 6 // 每当, 遍历 x5
+	c02TwoBodyIf = 2
+	c02ThreeBody = 4
 )
 
 func c02Stmts(m, d int, loop bool) int64 {
@@ -342,7 +342,7 @@ func init() {
 	mc.Register(&mc.Check{
 		ID:    "C02",
 		Level: "exploration",
-		Rule: "E1 exhaustive by rank/unrank: every statement tree with <= k statement nodes and nesting <= 3 over {输出, expression, 结束循环, 继续循环 (inside loops only), 如果 (1/2/3 branches, every truth assignment), 每当 (2 passes via a dedicated counter), 遍历 over [10,20] with 1/2/0 variables, over a dictionary with 2 variables, over an empty list}; a trace statement is planted before every statement and at the end of every block; each tree is run as program body and as method body. Distinct by construction; non-trivial = contains at least one compound statement.",
+		Rule:  "E1 exhaustive by rank/unrank: every statement tree with <= k statement nodes and nesting <= 3 over {输出, expression, 结束循环, 继续循环 (inside loops only), 如果 (1/2/3 branches, every truth assignment), 每当 (2 passes via a dedicated counter), 遍历 over [10,20] with 1/2/0 variables, over a dictionary with 2 variables, over an empty list}; a trace statement is planted before every statement and at the end of every block; each tree is run as program body and as method body. Distinct by construction; non-trivial = contains at least one compound statement.",
 		Assumptions: []string{
 			"reference interpreter written from manual ch.7/8 is the oracle (result + ordered trace)",
 			"the program result is compared only when the statement defines it (an 输出 ran, or the last top-level statement is an expression)",
